@@ -154,6 +154,38 @@ def handleLoad (args res : List String) : Verdict :=
       | _, _ => .bad "parse"
   | _ => .bad "parse"
 
+
+/-- `nn_init`: the tree built by `Initialize` against the model `init` (with `nth_element` = full sort).  Equal ⇒ ok.  A tree
+    that differs (another admissible partition of ties, another vantage point) is accepted when it satisfies `TreeInv`
+    (`checkInv`) — the property does not fix the construction — and counted as skipped; otherwise it is a failing input. -/
+def handleInit (args res : List String) : Verdict :=
+  match args.mapM parseI with
+  | some [kind, _seed, n, bucket] =>
+    let (_, rest) := splitAt "T" res
+    let isM := rest.contains "M"
+    let (t, c) := if isM then splitAt "M" rest else splitAt "P" rest
+    match t.mapM parseI, c.mapM parseI with
+    | some toks, some (_ :: cs) =>
+      let nn := n.toNat
+      let d : Nat → Nat → Int :=
+        if isM then
+          let m := cs.toArray
+          fun i j => m.getD (i * nn + j) 0
+        else
+          let pc := (pairs cs).toArray      -- entry 0 is the dummy query
+          fun i j => coordDist kind (pc.getD (i + 1) (0, 0)) (pc.getD (j + 1) (0, 0))
+      match load realspec maxbucket toks with
+      | .error e => .bad s!"Load model rejects the tree written by Save: {e}"
+      | .ok tr =>
+        if tr.numpoints != n || tr.bucket != bucket then .bad s!"saved header: numpoints {tr.numpoints} bucket {tr.bucket}, expected {n} {bucket}" else
+        let m := init nthSort d bucket.toNat nn
+        if tr.nodes == m.nodes && tr.cost == m.cost then .ok
+        else if checkInv tr.nodes.toArray nn bucket.toNat d then
+          .skip "Initialize built another tree than the model of init (tie order / vantage choice); it satisfies TreeInv"
+        else .bad "TreeInv: the tree built by Initialize differs from the model of init and violates the invariant (each index once, bounds enclose the children's distances, children before parents)"
+    | _, _ => .bad "parse"
+  | _ => .bad "parse"
+
 /-- `nn_bin`: the binary image (hex) and the text tokens of the same tree: the byte-level model of `Load` must read the same
     tree from the bytes as the token-level model from the text, and the model of `Save` must reproduce the bytes -/
 def hexBytes (h : String) : Option (List Nat) :=
@@ -278,6 +310,7 @@ def handle (op : String) (args res : List String) : Option Verdict :=
   | "nn_search" => some (handleSearch args res)
   | "nn_load" => some (handleLoad args res)
   | "nn_bin" => some (handleBin res)
+  | "nn_init" => some (handleInit args res)
   | "nn_bulk" | "nn_geo" | "nn_loadraw" | "nn_loaddag" | "nn_loadtrunc" => some (.skip "brute-force / robustness oracle in the harness")
   | _ =>
     if op.startsWith "ixm_" then handleIxm op args res
